@@ -115,7 +115,7 @@ func wpProfile(hows []string) func(r *rand.Rand) logical.Profile {
 			MinBlocks: 2, MaxBlocks: 8,
 			Tab: true, Break: true, Sym: true, Spaces: true,
 			HeadingHows: hows, MaxHeadingLevel: 9,
-			Lists: true, ListMaxDepth: 4,
+			Lists: true, ListMaxDepth: 4, ListJumps: true,
 			Tables: true, MaxRows: 5, MaxCols: 5, Spans: true, MultiPara: true, EmptyCells: true, CellSpecials: true, HeaderRows: true,
 			Pipes: true, Backslash: true, XMLChars: true, Title: true, HeaderFooter: true,
 			BlockBias: []string{"", "tables", "tables", "lists", "headings"}[r.Intn(5)],
@@ -183,7 +183,7 @@ func (ragBackend) Profile(r *rand.Rand) logical.Profile {
 	// at most 6 blocks: a run of consecutive paragraphs stays far below the
 	// chunker's 2000-character split limit (splitting is C13's subject)
 	return logical.Profile{MinBlocks: 2, MaxBlocks: 6, HeadingHows: []string{"model"}, MaxHeadingLevel: 9,
-		Lists: true, ListMaxDepth: 4, Tables: true, MaxRows: 5, MaxCols: 5, Spans: true, MultiPara: true, EmptyCells: true,
+		Lists: true, ListMaxDepth: 4, ListJumps: true, Tables: true, MaxRows: 5, MaxCols: 5, Spans: true, MultiPara: true, EmptyCells: true,
 		Tab: true, Sym: true, Pipes: true, Backslash: true, Title: true, Styles: 1,
 		BlockBias: []string{"", "tables", "lists", "headings"}[r.Intn(4)]}
 }
